@@ -83,6 +83,18 @@ def encExtra (f : Int) : Entry → Int
   | .slice i => 500000 + 1000 * f + i
   | .zero => 0
 
+/-- entries of `filter` / `lists` are given as `10000 · form + normalised id` (two entries are equal *as given* iff the codes
+are equal, equal as `pathlib.Path` objects iff the normalised ids are); normalised id = `1000 · class + file` (class 4: the
+file of the same name in the companion directory, whose content is labelled `500000 + …`) -/
+def normEntry (e : Int) : Int := e % 10000
+def contentBase (f : Int) : Int := (if f / 1000 = 4 then 500000 else 0) + 1000 * (f % 1000)
+def encMain (f : Int) : Entry → Int
+  | .slice i => contentBase f + i
+  | .zero => 0
+def encComp (f : Int) : Entry → Int
+  | .slice i => 500000 + 1000 * (f % 1000) + i
+  | .zero => 0
+
 /-- `dataset cls crop ctxArg mode listsRootGiven hasRegex hasExtra | F | poolIds | poolNs | listing | filter |
 regexIds | extraNs | idxs | list₀ | list₁ …` -/
 def opDataset (hdr : List Int) (Farg : FilterArg) (poolIds poolNs listing filter regexIds extraNs idxs : List Int)
@@ -97,12 +109,13 @@ def opDataset (hdr : List Int) (Farg : FilterArg) (poolIds poolNs listing filter
         lists := if mode = 2 ∨ mode = 3 then some lists else none
         listsRootGiven := rootGiven ≠ 0
         hasRegex := hasRegex ≠ 0
-        regexOk := fun f => regexIds.contains f }
+        regexOk := fun _ => true }
     let nOf (f : Int) : Option Nat :=
       match (poolIds.zip poolNs).lookup f with
       | some n => if n < 0 then none else some n.toNat
       | none => none
-    match buildH5 listingSortedCurrent dedupCurrent (fun a b => decide (a ≤ b)) sel nOf F with
+    match buildH5Raw listingSortedCurrent dedupCurrent dedupOnNormalisedCurrent normEntry (fun a b => decide (a ≤ b)) sel
+        (fun f => regexIds.contains f) nOf F with
     | .error e => "err " ++ errName e
     | .ok P =>
       let nMain (f : Int) : Nat := (nOf f).getD 0
@@ -113,10 +126,10 @@ def opDataset (hdr : List Int) (Farg : FilterArg) (poolIds poolNs listing filter
           match h5Item P nMain c idx with
           | .error e => [-1, errCode e]
           | .ok (f, s, es) =>
-            let main := f :: (s : Int) :: es.map (encEntry f)
+            let main := f :: (s : Int) :: es.map (encMain f)
             if hasExtra ≠ 0 then
               match h5ItemExtra P nX c idx with
-              | .ok xs => main ++ [-7] ++ xs.map (encExtra f)
+              | .ok xs => main ++ [-7] ++ xs.map (encComp f)
               | .error e => [-1, errCode e]
             else main)
   | _ => "err BadOp"
@@ -134,10 +147,11 @@ def opCmr (ctxCode mode rootGiven : Int) (poolIds as0 bs0 selIds idxs : List Int
     match table.lookup f with
     | some (a, b) => if a < 0 then none else some (a.toNat, b.toNat)
     | none => none
-  match buildCmr cmrListingSortedCurrent dedupCurrent (fun a b => decide (a ≤ b)) sel ctx shapeOpt with
+  match buildCmrRaw cmrListingSortedCurrent dedupCurrent dedupOnNormalisedCurrent normEntry (fun a b => decide (a ≤ b)) sel ctx
+      (fun f => shapeOpt (f % 1000)) with
   | .error e => "err " ++ errName e
   | .ok P =>
-    let shapeOf (f : Int) : Nat × Nat := (shapeOpt f).getD (0, 0)
+    let shapeOf (f : Int) : Nat × Nat := (shapeOpt (f % 1000)).getD (0, 0)
     okG ([P.data.map (·.1), P.data.map fun x => (x.2 : Int), P.vols.map (·.1),
           P.vols.map fun x => (x.2.1 : Int), P.vols.map fun x => (x.2.2 : Int)] ++
       idxs.map fun idx =>
